@@ -410,7 +410,7 @@ func (c *codecRun) viaServer(format string, direct bool) {
 	}
 	for _, l := range lens {
 		cases = append(cases, tc{uint64(c.rng.Intn(1 << 20)), max(0, l-svc.HeaderLen), 10, 0}) // args of length l
-		cases = append(cases, tc{uint64(c.rng.Intn(1 << 20)), 10, max(0, l-svc.IDLen-32), 0}) // reply of length l
+		cases = append(cases, tc{uint64(c.rng.Intn(1 << 20)), 10, max(0, l-svc.IDLen-32), 0})  // reply of length l
 		if l > 0 {
 			cases = append(cases, tc{uint64(c.rng.Intn(1 << 20)), 10, 10, l}) // error of length l
 		}
